@@ -130,7 +130,7 @@ def verify_chunk_loops(run, tier, wf=True, prefix='C03/parse_v3', only=None):
             state['chunk_i'] = i
             before = len(sink.items)
             try:
-                it.exec_loop_body(stmt.body, fr)
+                it.exec_while_step(stmt, fr)
                 exited = False
             except BreakSig:
                 exited = True
